@@ -778,7 +778,8 @@ def r4_file_insert_append(rep, src):
                     new = objs[2]
                 else:
                     new = mk_para(heap, '@FOREIGN')
-                    other = heap.alloc('Deb822FileElement', {'_token_and_elements': None, 'parent_element': None}, name='@other_file')
+                    olst, _onodes = H.build_list(heap, [new])
+                    other = heap.alloc('Deb822FileElement', {'_token_and_elements': olst, 'parent_element': None}, name='@other_file')
                     heap.objs[new.name]['parent_element'] = other
                 args = [new] if op == 'append' else [idx, new]
                 fn, it, clo, a = run_method(src, heap, f, 'Deb822FileElement', op, args)
@@ -797,6 +798,49 @@ def r4_file_insert_append(rep, src):
                              'places, and one later edit changes both)' % ('no error' if exc is None else 'raises %s' % exc, owner,
                                                                             '' if after == before else ', the document now has %d elements instead of %d' % (len(after), len(before))),
                              where=fn.where)
+
+
+def r4c_copy_of_a_paragraph(rep, src):
+    """a paragraph whose parent link names a document in which it does not stand (what copy.deepcopy() of a paragraph gives: the link is
+    copied with it) is a free paragraph: append and insert take it, and it gets this document as parent"""
+    for op, idxs in (('append', [None]), ('insert', [0, 1])):
+        for idx in idxs:
+            log = []
+            heap = mk_heap(src, log)
+            heap.hooks['.convert_to_text'] = lambda it_, args_, kw_: it_.h.objs[args_[0].name].get('text', '')
+            objs = [mk_para(heap, '@P1'), heap.alloc('Deb822WhitespaceToken', {'text': '\n', 'parent_element': None}), mk_para(heap, '@P2')]
+            lst, nodes = H.build_list(heap, objs)
+            f = heap.alloc('Deb822FileElement', {'_token_and_elements': lst, 'parent_element': None}, name='@file')
+            for o in objs:
+                heap.objs[o.name]['parent_element'] = f
+            for linked_to in ('this document', 'another document'):
+                heap2 = heap
+                new = mk_para(heap2, '@COPY_%s_%s' % (op, 'x' if idx is None else idx) + linked_to[:1])
+                if linked_to == 'this document':
+                    heap2.objs[new.name]['parent_element'] = f
+                else:
+                    o1 = mk_para(heap2, '@ORIGINAL' + new.name)
+                    olst, _on = H.build_list(heap2, [o1])
+                    other = heap2.alloc('Deb822FileElement', {'_token_and_elements': olst, 'parent_element': None})
+                    heap2.objs[o1.name]['parent_element'] = other
+                    heap2.objs[new.name]['parent_element'] = other
+                args = [new] if op == 'append' else [idx, new]
+                fn, it, clo, a = run_method(src, heap2, f, 'Deb822FileElement', op, args)
+                what = '%s(%sa copy of a paragraph of %s) is taken' % (op, '' if idx is None else '%d, ' % idx, linked_to)
+                try:
+                    it.call(clo, a)
+                    exc = None
+                except H.Raised as x:
+                    exc = x.exc
+                elems = [heap2.objs[nd.name]['value'] for nd in H.read_list(heap2, lst)[0]]
+                if exc is not None:
+                    rep.fail('C10.R4', fn.site, what, 'raises %s: the paragraph stands in no document (its parent link, copied with it, names the document of its original), so '
+                             'f.append(copy.deepcopy(paragraph)) must add it like any new paragraph' % exc, where=fn.where)
+                elif sum(1 for e in elems if e.name == new.name) != 1 or heap2.objs[new.name]['parent_element'] != f:
+                    rep.fail('C10.R4', fn.site, what, 'the paragraph stands %d times in the document and its parent is %r' % (
+                        sum(1 for e in elems if e.name == new.name), heap2.objs[new.name]['parent_element']), where=fn.where)
+                else:
+                    rep.ok('C10.R4', fn.site, what, 'added once, parent link re-targeted')
 
 
 def r_sort(rep, src):
@@ -936,6 +980,7 @@ def check(src, rep, tier):
     rep.guard('C10.R1', r_nodup, src)
     rep.guard('C10.R5', r_nodup_histories, src)
     rep.guard('C10.R4', r4_file_insert_append, src)
+    rep.guard('C10.R4', r4c_copy_of_a_paragraph, src)
     rep.guard('C10.R4', r5d_element_of_another_paragraph, src)
     rep.guard('C10.R4', r5e_element_in_two_paragraphs, src)
     rep.guard('C10.R2', r_sort, src)
